@@ -1,6 +1,123 @@
-(* C10 — stub: model not yet built (the property is listed under not_applicable until it is). *)
+(* C10 — field and sink failures are contained and reported; the entry is never lost.
+   Two kinds of cases:
+   (0 enccase)  a field tree with one injected fault (marshaler error, Stringer/Error()
+                panic or nil receiver, value encoding/json rejects); observation (line);
+   (1 hi cores entries)  a logger over a tree of cores whose sinks fail according to
+                per-entry outcome lists; observation (events errout returned).
+   No proofs in this file. *)
 From Coq Require Import List ZArith Bool.
+From Coq.Strings Require Import Byte.
 Import ListNotations.
-From Zap Require Import Base.Wire.
-Definition model (i : sx) : sx := SL [].
-Definition spec (i o : sx) : bool := false.
+From Zap Require Import Base.Wire Enc.Bytes Enc.Fields Enc.JsonEnc Enc.JsonParse Enc.WireEnc Enc.JsonAst Enc.Wf Enc.Parse3 C02.Model.
+
+(* ---------------- sinks and cores ---------------- *)
+(* one sink call outcome for one entry: Write's error (the count is ignored by ioCore.Write),
+   and Sync's error *)
+Record outcome1 := { werr : option bytes; serr : option bytes }.
+Inductive score :=
+| SLeaf (id : Z) (outs : list outcome1)      (* an ioCore over sink id; outcome for the k-th entry *)
+| STee (l : list score)                      (* zapcore.NewTee *)
+| SWrap (c : score).                         (* a wrapper forwarding Write to the wrapped core (hooked core) *)
+Inductive ev := EvW (id : Z) | EvS (id : Z).
+
+Definition out_at (outs : list outcome1) (k : nat) : outcome1 := nth k outs {| werr := None; serr := None |}.
+
+(* Core.Write for entry number k; hi = the entry's level is above Error.
+   ioCore.Write: encode, out.Write; on error return it; otherwise Sync (error ignored) when hi.
+   multiCore.Write: every core, errors appended.  Returns sink events and the errors in order. *)
+Fixpoint core_write (hi : bool) (k : nat) (c : score) {struct c} : list ev * list bytes :=
+  match c with
+  | SLeaf id outs =>
+      match werr (out_at outs k) with
+      | Some m => ([EvW id], [m])
+      | None => (EvW id :: (if hi then [EvS id] else []), [])
+      end
+  | STee l =>
+      (fix go (l : list score) : list ev * list bytes :=
+         match l with
+         | [] => ([], [])
+         | x :: r => let '(e1, m1) := core_write hi k x in let '(e2, m2) := go r in (e1 ++ e2, m1 ++ m2)
+         end) l
+  | SWrap c => core_write hi k c
+  end.
+
+(* CheckedEntry.Write over the cores that accepted the entry (Check: a tee lets each of its
+   cores add itself; a wrapper adds itself): all of them are written, the errors are combined and
+   reported in ONE line on the error output, then the call returns *)
+Fixpoint accepted (c : score) {struct c} : list score :=
+  match c with
+  | SLeaf _ _ => [c]
+  | STee l => (fix go (l : list score) : list score := match l with [] => [] | x :: r => accepted x ++ go r end) l
+  | SWrap _ => [c]
+  end.
+Definition entry_write (hi : bool) (k : nat) (c : score) : list ev * list bytes :=
+  fold_left (fun acc x => let '(e, m) := core_write hi k x in (fst acc ++ e, snd acc ++ m)) (accepted c) ([], []).
+
+(* the property's reading, written independently: every sink of the tree, in order *)
+Fixpoint leaves (c : score) {struct c} : list (Z * list outcome1) :=
+  match c with
+  | SLeaf id outs => [(id, outs)]
+  | STee l => (fix go (l : list score) := match l with [] => [] | x :: r => leaves x ++ go r end) l
+  | SWrap c => leaves c
+  end.
+Definition spec_events (hi : bool) (k : nat) (c : score) : list ev :=
+  flat_map (fun lf => match werr (out_at (snd lf) k) with
+                      | Some _ => [EvW (fst lf)]
+                      | None => EvW (fst lf) :: (if hi then [EvS (fst lf)] else [])
+                      end) (leaves c).
+Definition spec_write_errs (k : nat) (c : score) : list bytes :=
+  flat_map (fun lf => match werr (out_at (snd lf) k) with Some m => [m] | None => [] end) (leaves c).
+(* sync failures of sinks that were synced: the statement asks for these to be reported too *)
+Definition spec_sync_errs (hi : bool) (k : nat) (c : score) : list bytes :=
+  if hi then flat_map (fun lf => match werr (out_at (snd lf) k), serr (out_at (snd lf) k) with
+                                 | None, Some m => [m] | _, _ => [] end) (leaves c)
+  else [].
+
+(* ---------------- wire ---------------- *)
+Definition dec_out (s : sx) : outcome1 := {| werr := dec_optb (sx_nth s 0); serr := dec_optb (sx_nth s 1) |}.
+Fixpoint dec_score (fuel : nat) (s : sx) : score :=
+  match fuel with
+  | O => STee []
+  | S f =>
+      match sx_z (sx_nth s 0) with
+      | 0%Z => SLeaf (sx_z (sx_nth s 1)) (map dec_out (sx_l (sx_nth s 2)))
+      | 1%Z => STee (map (dec_score f) (sx_l (sx_nth s 1)))
+      | _ => SWrap (dec_score f (sx_nth s 1))
+      end
+  end.
+Definition enc_ev (e : ev) : sx := match e with EvW id => SL [SZ 0; SZ id] | EvS id => SL [SZ 1; SZ id] end.
+
+(* sink case: (1 hi core n_entries) ; observation: ((per entry: (events errcount)) ...) returned
+   errcount = number of lines the error output received for that entry *)
+Definition run_sink (hi : bool) (c : score) (n : nat) : list (list ev * list bytes) :=
+  map (fun k => entry_write hi k c) (seq 0 n).
+Definition model_sink (i : sx) : sx :=
+  let hi := sx_bool (sx_nth i 1) in
+  let c := dec_score (sx_size (sx_nth i 2)) (sx_nth i 2) in
+  let n := sx_n (sx_nth i 3) in
+  SL [SL (map (fun r => SL [SL (map enc_ev (fst r)); SL (map SB (snd r)); SZ (if is_nil (snd r) then 0 else 1)]) (run_sink hi c n)); SZ 1].
+(* oracle: per entry, every sink is written exactly once in order (synced after a successful write
+   when hi), the reported errors are exactly the failures of that entry (write AND sync failures),
+   and the call returned *)
+Definition spec_sink (i o : sx) : bool :=
+  let hi := sx_bool (sx_nth i 1) in
+  let c := dec_score (sx_size (sx_nth i 2)) (sx_nth i 2) in
+  let n := sx_n (sx_nth i 3) in
+  sx_eqb (sx_nth o 1) (SZ 1) &&
+  sx_eqb (sx_nth o 0)
+    (SL (map (fun k => let errs := spec_write_errs k c ++ spec_sync_errs hi k c in
+                       SL [SL (map enc_ev (spec_events hi k c)); SL (map SB errs); SZ (if is_nil errs then 0 else 1)]) (seq 0 n))).
+
+Definition model (i : sx) : sx :=
+  match sx_z (sx_nth i 0) with
+  | 0%Z => match C02.Model.model (sx_nth i 1) with SL (x :: _) => SL [x] | y => y end
+  | _ => model_sink i
+  end.
+Definition spec (i o : sx) : bool :=
+  match sx_z (sx_nth i 0) with
+  | 0%Z => C02.Model.spec_line (sx_nth i 1) o
+  | _ => spec_sink i o
+  end.
+
+Definition wf (i : sx) : bool :=
+  match sx_z (sx_nth i 0) with 0%Z => C02.Model.wf (sx_nth i 1) | _ => true end.
